@@ -362,7 +362,9 @@ def run(chk):
         if impl.startswith("crash"):
             return "call crashes instead of raising primitiv::Error (%s)" % impl
         if impl == "ok inconsistent":
-            return "two public entry points of the same rule disagree"
+            return ("the harness's own consistency checks on the result fail: two public entry points of the same rule disagree, or the Shape is not canonical / "
+                    "its volume(), size(), lower_volume() are not the products they name, or a copy / move (source and destination) is not that value, "
+                    "or a rejected update_dim / update_batch changed the object")
         if impl != sp:
             return "implementation returns `%s`, the specification says `%s`" % (impl, sp)
         return None
